@@ -1,7 +1,7 @@
 T = "GeomV.C03."
 CFG = {
     "id": "C03",
-    "lean_modules": ["GeomV.C03.Proofs", "GeomV.C03.ProofsScale", "GeomV.C03.ProofsMScale", "GeomV.C03.ProofsTouch"],
+    "lean_modules": ["GeomV.C03.Proofs", "GeomV.C03.ProofsScale", "GeomV.C03.ProofsMScale", "GeomV.C03.ProofsTouch", "GeomV.C03.ProofsOrder"],
     "exe": "geomv_c03",
     "go_cmd": "c03",
     "stages": ["go:gen", "go:impl", "lean:judge"],
@@ -17,7 +17,8 @@ CFG = {
         "polygonCentroidCore_scale", "opCentroidCore_scale", "C03_centroid_guard", "C03_opCentroid_guard",
         "C03_centroid_valid_guarded", "op_agrees_centroid_guarded", "C03_mcentroid_guarded",
         "pip_scale", "ringArea_scale", "C03_area_scale", "multiPolygonCentroidCore_scale", "C03_mcentroid_guard", "C03_mcentroid_guarded_all",
-        "C03_area_touch", "C03_marea_touch", "C03_mcentroid_touch", "C03_mcentroid_touch_guarded", "C03_centroid_valid_touch"]],
+        "C03_area_touch", "C03_marea_touch", "C03_mcentroid_touch", "C03_mcentroid_touch_guarded", "C03_centroid_valid_touch",
+        "C03_area_order", "C03_area_anyorder", "C03_area_holefirst", "C03_mcentroid_anyorder", "C03_centroid_order", "C03_centroid_valid_anyorder"]],
     "trusted_base": [
         "Lean 4.33.0 kernel; axioms of every theorem printed by #print axioms must be within {propext, Classical.choice, Quot.sound}",
         "Mathlib v4.33 modules imported by GeomV/C03/Lemmas*.lean and Proofs.lean (checked by the same kernel)",
